@@ -268,7 +268,7 @@ pub fn run_scenario(sc: &Scenario) -> RunOutcome {
         if handles.iter().all(|h| h.is_finished()) {
             break;
         }
-        if sched.stalled_for() > std::time::Duration::from_secs(60) {
+        if sched.stalled_for() > std::time::Duration::from_secs(40) {
             hung = true;
             break;
         }
